@@ -9,7 +9,12 @@ CLS = {"InTransaction": 0, "OutTransaction": 1, "IntraTransaction": 2}
 def fiat_in_with_fee(r):
     """documented derivation, computed independently with 31-digit decimals"""
     getcontext().prec = 31
-    D = lambda u: Decimal(u).scaleb(-11)  # noqa: E731
+
+    def D(u):
+        if isinstance(u, str):         # exact rational 'n/d' (effective rows of the end-to-end stream, hist.split_case)
+            n, d = u.split("/")
+            return (Decimal(n) / Decimal(d)).scaleb(-11)
+        return Decimal(u).scaleb(-11)
     if r.get("fiat_in_with_fee") is not None:
         return D(r["fiat_in_with_fee"])
     no_fee = D(r["fiat_in_no_fee"]) if r.get("fiat_in_no_fee") is not None else D(r["crypto_in"]) * D(r["spot"])
@@ -64,7 +69,8 @@ def check_events(case, dump):
         # roundings proved in C04 (relative 1.1e-30); exact equality would demand more than the property states
         from decimal import Decimal
         pv, ev_ = Decimal(f["proceeds"][0]).scaleb(f["proceeds"][1]), Decimal(exp[0]).scaleb(exp[1])
-        close = abs(pv - ev_) <= abs(ev_) * Decimal("2.2e-30")
+        # (a split row's value is itself derived with up to three more roundings)
+        close = abs(pv - ev_) <= abs(ev_) * Decimal("1e-29" if ins[row].get("split_fee") else "2.2e-30")
         if f["lot"] is not None or f["amt"] != e["amt"] or f["cost"] != [0, 0] or not close:
             bad.append(f"income row {row}: fraction {f} (expected amount {e['amt']}, proceeds {exp}, cost 0, no lot)")
     for ev in by_ev:
@@ -104,9 +110,7 @@ def run(tier, build, replay=None):
     if replay and "multi" in replay:          # replay of a tax-report job of the report stage
         data = {"cases": [], "impl": [], "events": []}
     elif replay:
-        core.impl_env_setup()
-        data = {"cases": [replay], "impl": [hist.impl_compute(replay)],
-                "events": core.run_model([hist.line(13, hist.encode_hist(replay))])}
+        data = l2.run_cases([replay])          # (an end-to-end case goes through the files and parse_ods again)
     else:
         data = l2.run(tier)
     nontriv, mism = set(), 0
@@ -145,6 +149,7 @@ def run(tier, build, replay=None):
         "traces_validated_against_impl": len(data["cases"]),
         "correspondence_mismatches": mism,
         "type_distribution": types_seen,
+        "end_to_end_stream": hist.ods_stats(data["cases"]),
     })
     out.assumptions = ["the oracle taxes a transfer iff its crypto fee is non-zero, whatever the fee is worth (histories with fees worth less than "
                        "5e-14 are generated and must pass: finding F8 is repaired, replay corpus/C03/f8-dust-transfer-fee.json); a negative fee "
